@@ -5924,7 +5924,15 @@ impl BytecodeVM {
             }
             JsValue::Null => Err(JsError::type_error("Cannot set properties of null")),
             JsValue::Undefined => Err(JsError::type_error("Cannot set properties of undefined")),
-            _ => Ok(()),
+            // Strict mode: assigning a property on a primitive (number, string, boolean, symbol) throws
+            _ => {
+                let prop_key = interp.property_key_from_value(key);
+                Err(JsError::type_error(format!(
+                    "Cannot create property '{}' on {}",
+                    prop_key,
+                    interp.type_of(obj)
+                )))
+            }
         }
     }
 
